@@ -14,6 +14,13 @@ Verdicts (logical, never wall-clock):
   deadlock         no enabled action while some thread is not DONE
   non-termination  > NONTERM_STEPS consecutive steps in which only timeouts are enabled
   step cap         inconclusive
+
+A token holder that blocks in a primitive the scheduler does not know (a real threading.Lock of an object built before the
+run, a pipe, a Barrier ...) would stop the world: the waiting threads notice that its innermost frame does not move (wall
+clock, used for nothing but this), take the token away from it ("detached") and go on; when it comes back to a scheduling
+point it queues up for the token like everybody else.  Between waking up and that point it runs beside the token holder -
+as any real thread would.  If nobody else can run the token is parked until it comes back; the wall cap (inconclusive)
+bounds that wait.
 """
 
 import queue as _queue
@@ -23,6 +30,8 @@ import time
 RUNNABLE, BLOCKED_GET, BLOCKED_PUT, BLOCKED_JOIN, BLOCKED_COND, DONE = "RUNNABLE", "BLOCKED_GET", "BLOCKED_PUT", "BLOCKED_JOIN", "BLOCKED_COND", "DONE"
 NONTERM_STEPS = 200
 NO_PROGRESS_STEPS = 1500  # steps without any put / delivered get / read / message / thread start or end
+STALL_POLL_S = 0.25  # waiting threads look this often whether the token holder still moves
+STALL_S = 1.5  # a token holder whose innermost frame did not move for this long sits in a blocking call the scheduler does not know
 
 
 class SchedAbort(BaseException):
@@ -31,7 +40,7 @@ class SchedAbort(BaseException):
 
 class TState:
     __slots__ = ("name", "thread", "status", "event", "queue", "may_time_out", "join_target", "cond", "timeout_fired",
-                 "steps", "exc")
+                 "steps", "exc", "detached")
 
     def __init__(self, name, thread):
         self.name = name
@@ -45,6 +54,7 @@ class TState:
         self.timeout_fired = False
         self.steps = 0
         self.exc = None
+        self.detached = False  # holds no token although it runs: it sat in a blocking call unknown to the scheduler
 
 
 class Scheduler:
@@ -70,6 +80,10 @@ class Scheduler:
         self.t0 = time.monotonic()
         self.wall_cap_s = wall_cap_s
         self.thread_exceptions = []
+        self.detached_threads = 0  # times the token was taken away from a thread blocked outside the scheduler's primitives
+        self._stall = None  # ((steps, thread name, frame id, instruction), first seen)
+        self.parked_tokens = 0
+        self.blocked_outside = []  # (thread, file, line) where a thread was found blocked outside the scheduler's primitives
 
     # ---- registration -----------------------------------------------------------
     def adopt_current(self, name="main"):
@@ -105,6 +119,8 @@ class Scheduler:
     def _enabled(self):
         out = []
         for st in self.states:
+            if st.detached:
+                continue
             if st.status == RUNNABLE:
                 out.append((st, "run"))
             elif st.status == BLOCKED_GET:
@@ -150,11 +166,27 @@ class Scheduler:
     # ---- the hand-over -----------------------------------------------------------
     def _switch(self, me, finishing=False):
         """Called by the token holder with its own state already updated."""
+        reattach = False
         with self.mutex:
             if self.aborted is not None:
                 if finishing:
                     return
                 raise SchedAbort()
+            if me.detached:
+                # back from a blocking call the scheduler knew nothing about: the token went on without this thread
+                me.detached = False
+                if self.current is not None and self.current is not me:
+                    if finishing:
+                        return
+                    reattach = True
+                else:
+                    self.current = me  # the token was parked: nobody else could run
+        if reattach:
+            self._wait_turn(me)
+            if self.aborted is not None:
+                raise SchedAbort()
+            return
+        with self.mutex:
             self.steps += 1
             me.steps += 1
             if self.steps > self.step_cap:
@@ -169,45 +201,101 @@ class Scheduler:
             if not enabled:
                 if all(st.status == DONE for st in self.states):
                     return
-                self._abort("deadlock", {"threads": self.describe_threads()})
-                if finishing:
-                    return
-                raise SchedAbort()
-            if self.steps - self.last_progress > max(NO_PROGRESS_STEPS, getattr(self.strategy, "allow_idle_steps", 0)):
-                # threads keep cycling (wait, time out, wait again ...) but nothing is produced, consumed, started or finished:
-                # somebody waits for a message that nobody will ever send
-                self._abort("non-termination", {"threads": self.describe_threads(), "steps_without_progress": self.steps - self.last_progress})
-                if finishing:
-                    return
-                raise SchedAbort()
-            if all(a == "timeout" for _, a in enabled):
-                self.only_timeouts_run += 1
-                if self.only_timeouts_run > NONTERM_STEPS:
-                    self._abort("non-termination", {"threads": self.describe_threads()})
+                if any(st.detached and st.status != DONE for st in self.states):
+                    # everybody waits for a thread that is busy outside the scheduler: park the token until it is back
+                    self.current = None
+                    self.parked_tokens += 1
+                else:
+                    self._abort("deadlock", {"threads": self.describe_threads()})
                     if finishing:
                         return
                     raise SchedAbort()
             else:
-                self.only_timeouts_run = 0
-            idx = self.strategy.choose(self, enabled, me)
-            self.decisions.append(idx)
-            target, action = enabled[idx]
-            self.trace.append((self.steps, target.name, action, len(enabled)))
-            if action == "timeout":
-                target.timeout_fired = True
-                self.timeouts_fired += 1
-            if target is not me:
-                self.context_switches += 1
-            self.current = target
-            if target is me and not finishing:
-                return
-            target.event.set()
+                try:
+                    target = self._decide(enabled, me)
+                except SchedAbort:
+                    if finishing:
+                        return
+                    raise
+                if target is me and not finishing:
+                    return
+                target.event.set()
         if finishing:
             return
-        me.event.wait()
-        me.event.clear()
+        self._wait_turn(me)
         if self.aborted is not None:
             raise SchedAbort()
+
+    def _decide(self, enabled, me):
+        """(mutex held, enabled not empty) the verdicts on cycling threads, then one decision of the strategy -> the thread
+        that holds the token from now on"""
+        if self.steps - self.last_progress > max(NO_PROGRESS_STEPS, getattr(self.strategy, "allow_idle_steps", 0)):
+            # threads keep cycling (wait, time out, wait again ...) but nothing is produced, consumed, started or finished:
+            # somebody waits for a message that nobody will ever send
+            self._abort("non-termination", {"threads": self.describe_threads(), "steps_without_progress": self.steps - self.last_progress})
+            raise SchedAbort()
+        if all(a == "timeout" for _, a in enabled):
+            self.only_timeouts_run += 1
+            if self.only_timeouts_run > NONTERM_STEPS:
+                self._abort("non-termination", {"threads": self.describe_threads()})
+                raise SchedAbort()
+        else:
+            self.only_timeouts_run = 0
+        idx = self.strategy.choose(self, enabled, me)
+        self.decisions.append(idx)
+        target, action = enabled[idx]
+        self.trace.append((self.steps, target.name, action, len(enabled)))
+        if action == "timeout":
+            target.timeout_fired = True
+            self.timeouts_fired += 1
+        if target is not me:
+            self.context_switches += 1
+        self.current = target
+        return target
+
+    def _wait_turn(self, me):
+        """Wait for the token; meanwhile watch the token holder: does it still move?"""
+        while not me.event.wait(STALL_POLL_S):
+            self._check_stall(me)
+        me.event.clear()
+
+    def _check_stall(self, me):
+        import sys
+
+        with self.mutex:
+            if self.aborted is not None:
+                return
+            now = time.monotonic()
+            if now - self.t0 > self.wall_cap_s:
+                self._abort("wall-cap", {"steps": self.steps, "waiting_for": self.current.name if self.current is not None else None})
+                return
+            cur = self.current
+            if cur is None or cur is me or cur.status == DONE or cur.detached:
+                return
+            ident = next((i for i, st in self.by_ident.items() if st is cur), None)
+            frame = sys._current_frames().get(ident) if ident is not None else None
+            if frame is None:
+                return  # not started yet / just gone
+            sig = (self.steps, cur.name, id(frame), frame.f_lasti)
+            if self._stall is None or self._stall[0] != sig:
+                self._stall = (sig, now)
+                return
+            if now - self._stall[1] < STALL_S:
+                return
+            # the token holder sits in a blocking call (or a very long computation): go on without it
+            self._stall = None
+            cur.detached = True
+            enabled = self._enabled()
+            if not enabled:
+                cur.detached = False  # nobody else can run anyway: keep waiting for it
+                return
+            self.detached_threads += 1
+            self.blocked_outside.append((cur.name, frame.f_code.co_filename.rsplit("/", 1)[-1], frame.f_lineno))
+            try:
+                target = self._decide(enabled, cur)
+            except SchedAbort:
+                return  # verdict recorded, everybody woken up
+            target.event.set()
 
     def yield_point(self, kind="yield", info=None):
         me = self.me()
@@ -220,8 +308,7 @@ class Scheduler:
     # ---- thread life cycle ----------------------------------------------------------
     def thread_begin(self, st):
         self.by_ident[threading.get_ident()] = st
-        st.event.wait()
-        st.event.clear()
+        self._wait_turn(st)
         if self.aborted is not None:
             raise SchedAbort()
 
